@@ -71,7 +71,7 @@ def run_history(ops, want_corr=True):
                 cur.add(x) if how == 'add' else cur.discard(x)
             elif a == 'l':
                 if how == 'add':
-                    cur.append(x)
+                    cur.extend([x, x + 1] if x % 2 else [x])
                 elif x in cur:
                     cur.remove(x)
             else:
@@ -207,7 +207,7 @@ def run(ctx):
         for fn in sorted(os.listdir(CORPUS)):
             with open(os.path.join(CORPUS, fn)) as f:
                 hists.append(json.load(f)['history'])
-    for _ in range(90 if quick else 1500):
+    for _ in range(70 if quick else 500):
         hists.append(O.gen_history(rng))
     prop_cases, prop_meta, corr_cases, corr_meta = [], [], [], []
     for hi, ops in enumerate(hists):
@@ -238,7 +238,7 @@ def run(ctx):
                 corr_meta.append((ops, s))
     # counters
     cnt_cases, cnt_meta = [], []
-    for _ in range(25 if quick else 300):
+    for _ in range(25 if quick else 120):
         h = []
         for _ in range(rng.randint(1, 6)):
             if rng.random() < 0.6:
